@@ -557,7 +557,7 @@ func v20Directed(o *v20Out, root string, seed int64, rep int, procs bool) {
 	}
 	o.stat("directed:"+mode+":staged", 1)
 	if lockGone {
-		o.stat("directed:"+mode+":lock-path-removed-while-waiter-holds-inode", 1)
+		o.stat("directed:"+mode+":lock-path-gone-when-failed-holder-returned", 1)
 	}
 	if overlap {
 		o.stat("directed:"+mode+":two-requests-inside-critical-section", 1)
